@@ -108,6 +108,8 @@ def classify(file, fn, kind, op, g):
     if file.endswith('varsscope.go'):
         if kind in ('index', 'slice') and re.search(r'cFields|fields|strings\.Split', op):
             return (INV, 'strings.Split returns at least one element; fields is a non-empty suffix of cFields (recursion only with len(fields) > 1 resp. > 2)')
+        if kind == 'mapkey' and 'mapFieldKey(' in op:
+            return (INV, 'mapFieldKey returns float64(index) or the string field itself: both hashable')
         if kind == 'mapkey':
             return (INV, 'string / float64 keys are hashable')
     # ------------------------------------------------ engine
